@@ -131,4 +131,7 @@ class MoreInfoFromHeaderMixin:
         if referrer is None:
             return None
 
-        return URL(url=referrer)
+        try:
+            return URL(url=referrer)
+        except ValueError:  # e.g. "http://["
+            return None
